@@ -42,11 +42,26 @@ pub fn shim_vec_contains<T: PartialEq>(v: &Vec<T>, x: &T) -> (r: bool)
 { v.iter().any(|e| e == x) }
 
 // R17
+// opaque: its two clauses trigger each other; use the two lemmas below to instantiate
+#[verifier::opaque]
 pub open spec fn values_of<K, V>(m: Map<K, V>, vs: Seq<&V>) -> bool {
     &&& forall|k: K| m.contains_key(k) ==> exists|j: int| 0 <= j < vs.len() && *#[trigger] vs[j] == m[k]
     &&& forall|j: int| 0 <= j < vs.len() ==> exists|k: K| m.contains_key(k) && #[trigger] m[k] == *#[trigger] vs[j]
 }
 #[verifier::external_body]
 pub fn shim_hashmap_values<'a, K, V>(m: &'a HashMap<K, V>) -> (r: Vec<&'a V>)
-    ensures values_of(m@, r@)
+    ensures values_of(m@, r@), forall|k: K| m@.contains_key(k) ==> r@.len() > 0
 { m.values().collect() }
+
+pub proof fn lemma_values_of_key<K, V>(m: Map<K, V>, vs: Seq<&V>, k: K) -> (j: int)
+    requires values_of(m, vs), m.contains_key(k)
+    ensures 0 <= j < vs.len(), *vs[j] == m[k]
+{ reveal(values_of); choose|j: int| 0 <= j < vs.len() && *#[trigger] vs[j] == m[k] }
+pub proof fn lemma_values_of_index<K, V>(m: Map<K, V>, vs: Seq<&V>, j: int) -> (k: K)
+    requires values_of(m, vs), 0 <= j < vs.len()
+    ensures m.contains_key(k), m[k] == *vs[j]
+{ reveal(values_of); choose|k: K| m.contains_key(k) && #[trigger] m[k] == *vs[j] }
+pub proof fn lemma_values_of_empty<K, V>(m: Map<K, V>, vs: Seq<&V>)
+    requires values_of(m, vs), vs.len() == 0
+    ensures forall|k: K| !m.contains_key(k)
+{ reveal(values_of); }
